@@ -22,7 +22,7 @@ case "$ID" in
   C18) TARGETS="profile decoders fieldconv";;
   *) exit 0;;
 esac
-runs_for() { case "$1" in decoders) echo ${VERIF_FUZZ_RUNS:-300000};; fieldconv) echo ${VERIF_FUZZ_RUNS:-400000};; fieldops) echo ${VERIF_FUZZ_RUNS:-250000};; program) echo ${VERIF_FUZZ_RUNS:-25000};; tower) echo ${VERIF_FUZZ_RUNS:-150000};; profile) echo ${VERIF_FUZZ_RUNS:-15000};; esac; }
+runs_for() { case "$1" in decoders) echo ${VERIF_FUZZ_RUNS:-200000};; fieldconv) echo ${VERIF_FUZZ_RUNS:-400000};; fieldops) echo ${VERIF_FUZZ_RUNS:-80000};; program) echo ${VERIF_FUZZ_RUNS:-25000};; tower) echo ${VERIF_FUZZ_RUNS:-100000};; profile) echo ${VERIF_FUZZ_RUNS:-15000};; esac; }
 maxlen_for() { case "$1" in decoders) echo 320;; fieldconv) echo 300;; fieldops) echo 1500;; program) echo 300;; tower) echo 1200;; profile) echo 1600;; esac; }
 
 cd "$H" || exit 2
@@ -50,7 +50,7 @@ for T in $TARGETS; do
       if [ $CAMP = seeded ]; then S=$((SEED*1000 + i)); else S=$((SEED*1000 + 500 + i)); fi
       if [ $CAMP = seeded ]; then SEEDDIR="$W/seeds-$T"; else SEEDDIR=""; fi
       ( "$BIN/$T" "$C/corpus" $SEEDDIR -runs=$RUNS -seed=$S -len_control=0 -max_len=$ML -timeout=60 -rss_limit_mb=4096 \
-          -max_total_time=${VERIF_FUZZ_MAXTIME:-900} -artifact_prefix="$C/art/" -print_final_stats=1 >"$C/log" 2>&1; echo $? >"$C/rc" ) &
+          -max_total_time=${VERIF_FUZZ_MAXTIME:-420} -artifact_prefix="$C/art/" -print_final_stats=1 >"$C/log" 2>&1; echo $? >"$C/rc" ) &
       pids+=($!)
     done
     wait "${pids[@]}"
